@@ -839,7 +839,7 @@ def _s_ops(kind):
                                "form": st.sampled_from(["list", "list", "set", "set", "str", "tuple"]),
                                "arg": st.sampled_from(["id", "kw", "none", "none"])})
   cwr0 = st.fixed_dictionaries({"op": st.just("cwr"), "w": st.integers(0, 4), "deps": st.just([]),
-                                "form": st.sampled_from(["set"] * 14 + ["list", "tuple"]),
+                                "form": st.sampled_from(["set", "list", "tuple"]),
                                 "arg": st.sampled_from(["id", "none"])})
   ltd = st.fixed_dictionaries({"op": st.just("ltd"), "k": st.integers(0, 2), "extra": st.lists(name, max_size=2),
                                "attrs": st.sampled_from(ATTR_MODES), "extra_form": st.sampled_from(["list", "none", "str"])})
